@@ -65,6 +65,16 @@ func report(key, what string, c interface{}) {
 
 var distinct = map[uint64]struct{}{}
 
+// at most one written-out sample per enumeration class, so that the 12 samples show all kinds
+var sampled = map[string]bool{}
+
+func sample(class string, v map[string]interface{}) {
+	if !sampled[class] {
+		sampled[class] = true
+		run.Sample(v)
+	}
+}
+
 func noteDistinct(enc []byte, nontrivial bool) {
 	if !nontrivial {
 		return
@@ -354,7 +364,7 @@ func checkTx(class string, m *model.Tx, wrappers bool) {
 		if ok {
 			run.Outcome("ok:" + class)
 			if len(m.Ins) > 0 {
-				run.Sample(map[string]interface{}{"class": class, "encoding": hex.EncodeToString(enc), "id": w.tx.ID.String()})
+				sample(class, map[string]interface{}{"class": class, "encoding": hex.EncodeToString(enc), "id": w.tx.ID.String()})
 			}
 		} else {
 			run.Outcome("violation:" + class)
@@ -454,7 +464,7 @@ func checkHeader(class string, h *model.Header) {
 		if ok {
 			run.Outcome(fmt.Sprintf("ok:%s", class))
 			if nsig > 0 {
-				run.Sample(map[string]interface{}{"class": class, "encoding": hex.EncodeToString(enc), "hash": hash.String()})
+				sample(class, map[string]interface{}{"class": class, "encoding": hex.EncodeToString(enc), "hash": hash.String()})
 			}
 		} else {
 			run.Outcome("violation:" + class)
@@ -692,7 +702,7 @@ func checkBlock(class string, b *model.Block) {
 		if ok {
 			run.Outcome("ok:" + class)
 			if len(b.Txs) > 0 {
-				run.Sample(map[string]interface{}{"class": class, "encoding": string(fullText), "hash": hash.String()})
+				sample(class, map[string]interface{}{"class": class, "encoding": string(fullText), "hash": hash.String()})
 			}
 		} else {
 			run.Outcome("violation:" + class)
